@@ -254,6 +254,13 @@ func signature(name, pos string, env []string, ref, l *obs) string {
 	if s := objSignature(name, env, ref, l); s != "" {
 		return s
 	}
+	// `(a?.b)(c)` inside a parameter default value: the temporary that holds the receiver is
+	// declared as the parameter of an arrow wrapped around the chain only, the `.call(_a, ...)`
+	// outside of it reads an undeclared variable (reproduced by hand, see known_findings.jsonl)
+	if ref != nil && l != nil && knownConstruct(name) == "oc_parencall" && (pos == "dflt" || pos == "ddflt") &&
+		l.C == "throw:ReferenceError" && ref.C != l.C && len(l.T) <= len(ref.T) && sameTrace(l.T, ref.T[:len(l.T)]) {
+		return "parenthesised-optional-chain-callee-temporary-out-of-scope-in-parameter-default"
+	}
 	if ref == nil || l == nil || ref.C != "throw:TypeError" || !strings.HasPrefix(l.C, "ret:") || len(l.T) < len(ref.T) {
 		return ""
 	}
